@@ -64,7 +64,15 @@ def _run_shards(prop, descs, watchdog_s, crash_ok=False):
                         except OSError:
                             stalled = False
                     if stalled:
-                        # no progress on one case for STALL_S seconds: kill, record, resume
+                        # no progress on one case for STALL_S seconds: ask for a stack
+                        # dump, kill, record, resume
+                        try:
+                            import signal
+
+                            p.send_signal(signal.SIGUSR1)
+                            time.sleep(1.0)
+                        except Exception:
+                            pass
                         p.kill()
                         p.wait()
                         rc = "stalled"
@@ -194,7 +202,7 @@ def main(argv):
         if c["rc"] == "stalled":
             # last periodic stack dump tells where it was stuck
             frame = ""
-            for blk in c["log"].split("Timeout (")[-1:]:
+            for blk in c["log"].split("Current thread")[-1:]:
                 for line in blk.splitlines():
                     if line.strip().startswith("File"):
                         frame = line.strip().split(" in ")[-1]
